@@ -28,3 +28,21 @@ Theorem C03_core_unsat : forall db core, check_core db core = true ->
   forall a, a VRoot = true ->
   (forall j c, In j core -> nth_error db (N.to_nat j) = Some c -> cl_true a (cl_lits c) = true) -> False.
 Proof. exact check_core_sound. Qed.
+
+(* ---- Conflict::graph itself (Conflict/GraphBuild.v: the graph construction of
+   src/conflict.rs, node for node and edge for edge in petgraph's index order,
+   including the swap-remove of the unresolved node; compared with the
+   implementation's graph for equality on every Unsolvable run) ---- *)
+From Resolvo Require Import Conflict.GraphBuildProofs.
+
+(* truthful by construction: for every provider, problem and clause list, a
+   graph built from facts is truthful *)
+Theorem C03_built_graph_truthful : forall U P idx cls,
+  Forall (fun c => factb U P idx c = true) cls -> Truthful U P (build_graph U cls).
+Proof. exact build_graph_truthful. Qed.
+
+(* in the form the check uses: whatever clauses of an accepted clause database
+   the conflict names, the graph built from them is truthful *)
+Theorem C03_graph_of_checked_db_truthful : forall U P db core,
+  facts_ok U P db = true -> Truthful U P (build_graph U (core_clauses db core)).
+Proof. exact graph_of_checked_db_truthful. Qed.
